@@ -1,11 +1,11 @@
 SPECIFICATION Spec
 CONSTANTS
-  Cons <- AsgPat
+  Cons <- ForLhs
   Terms = {"semi"}
-  MaxE = 1
-  MaxS = 1
-  MaxX = 1
-  MaxP = 2
+  MaxE = 2
+  MaxS = 2
+  MaxX = 0
+  MaxP = 1
   MaxL = 0
   MaxTop = 1
 CHECK_DEADLOCK FALSE
